@@ -65,6 +65,11 @@ var cutFuncs = map[string]int{
 }
 
 func runC07(c *Ctx) {
+	// the accepted lines, decided exactly (c07exact.go); the rules about the
+	// form of the cutters and about the separator tables of the parsing
+	// functions are its fall-back (the classification of rejected lines, the
+	// stored names, the delegates and MarshalText keep their own rules)
+	recExact := c07RecordExact(c)
 	c.L.Trust("go/types + go/ssa", "bytes/strings: Trim, TrimLeft, IndexAny, IndexByte", "netip.Addr.UnmarshalText / MarshalText", "rule code /verif/sa/rules/hostsfile.go")
 	c.L.Floor("C07.separators", 5)
 	c.L.Floor("C07.classify", 4)
@@ -81,9 +86,13 @@ func runC07(c *Ctx) {
 	// TrimLeft(data[that index:], spaces) — the whole run of separators is
 	// skipped, so fields may be separated by any number of spaces and tabs
 	c.L.Floor("C07.cut-shape", 2)
+	if recExact {
+		c.L.Floor("C07.cut-shape", 0)
+		c.L.Floor("C07.separators", 0)
+	}
 	for _, name := range []string{"cutField", "cutStringField"} {
 		f := c.fn("hostsfile", name)
-		if f == nil {
+		if f == nil || recExact {
 			continue
 		}
 		data := ssa.Value(f.Params[0])
@@ -157,6 +166,9 @@ func runC07(c *Ctx) {
 		}
 	}
 	for _, f := range parseFns {
+		if recExact {
+			break
+		}
 		for _, ci := range core.AllCalls(f) {
 			n := core.CalleeName(ci.Common())
 			var short string
@@ -409,6 +421,22 @@ func runC07(c *Ctx) {
 						}
 					}
 					c.check(good, "C07.two-pass", um, "rec.Names = make([]string, n), n = number of names validated successfully", st, "only the names before the first bad one are retained")
+					// ... on every path that goes on to the second pass: a record that is
+					// reused must not keep names of the line it held before
+					if st2 := st; hosts != nil {
+						for _, ret := range core.Returns(um) {
+							if !core.MayFollow(st2, ret) {
+								continue
+							}
+							// counted from the conversion of the tail: the paths that
+							// leave before it (empty line, no hosts, bad address) do not count
+							mn, _, okC := core.CountOnPaths(um, hosts, ret, func(in ssa.Instruction) bool { return in == ssa.Instruction(st2) })
+							if okC && mn == 0 {
+								c.check(false, "C07.two-pass", um, "rec.Names is set afresh on every path through the names", st2,
+									"a path reaches the return without the store: a reused Record keeps (part of) the names it held before")
+							}
+						}
+					}
 				})
 			}
 			// the name error wraps the validator's error
@@ -1427,3 +1455,4 @@ func c08StorageAdd(c *Ctx, f *ssa.Function) {
 		c.check(okBA, "C08.storage.index", ba, "ByAddr looks up s.names[addr]", nil, "the address index is keyed by the address itself")
 	}
 }
+
